@@ -142,7 +142,24 @@ func (e *env) openBreaker(x int, kind string) bool {
 	e.isolate(x)
 	e.set(x, kind)
 	for n := 0; n < 5; n++ {
-		e.request()
+		r, _, _ := e.request()
+		res.Add("evaluations", 1)
+		// every one of these failures - the one that trips the breaker included - takes x out of rotation
+		if kind == "refuse" || kind == "rst-before-headers" {
+			name := e.bes[x].Name
+			if !stack.Eventually(2*time.Second, func() bool {
+				for _, h := range e.o.HealthyNames() {
+					if h == name {
+						return false
+					}
+				}
+				return true
+			}) {
+				res.Violate("failed-endpoint-still-in-rotation", map[string]any{"engine": e.c.engine, "prefix": "breaker-shaping", "outcome": kind},
+					fmt.Sprintf("%s: consecutive failure %d of kind %s on backend %c (the only candidate, readmitted by a health check after each failure): the request failed at connection level but the endpoint is still healthy in the repository\nclient: %s", e.c, n+1, kind, e.letters[x], r),
+					map[string]any{"engine": "stack", "config": e.c.String(), "prefix": "openBreaker", "failure": n + 1, "kind": kind})
+			}
+		}
 		// readmit x the way its next successful health check would (the others are not probed, so the
 		// health checker's own breaker stays out of the picture)
 		e.o.SetStatus(e.bes[x].Name, "healthy")
